@@ -38,6 +38,9 @@ def shards(tier, seed):
         out.append(("statement-level", c, 6 if tier == "quick" else 50, 0, s))
     for c, s in zip(chunk(line_scns, n), split_seeds(seed + 123, n)):
         out.append(("statement-level", c, 0, 8 if tier == "quick" else 100, s))
+    wake = [sc.to_json() for sc in P.meta_wakeup_triples()]
+    for c, s in zip(chunk(wake, len(wake)), split_seeds(seed + 124, len(wake))):
+        out.append((c, 1, 20 if tier == "quick" else 60, 10 if tier == "quick" else 60, s, 500 if tier == "quick" else 4000))
     if tier == "quick":
         for c, s in zip(chunk(pairs, n * 2), split_seeds(seed + 12, n * 2)):
             out.append((c, 1, 6, 0, s, None))
